@@ -63,6 +63,8 @@ VARIABLES
 vars == <<slab, alloc, idle, ready, leased, inFlight, inbox, nsent, pinfo,
           rpc, rheld, rpend, hpc, cur, burst, fl, out, ov, oout, wire, err>>
 
+SilentKinds == {"malformed", "qr", "ignoredByChain"}
+
 NoOut == [wrote |-> FALSE, handoff |-> FALSE, panic |-> FALSE, set |-> FALSE]
 O(w, h, p) == [wrote |-> w, handoff |-> h, panic |-> p, set |-> TRUE]
 
@@ -81,6 +83,7 @@ Allowed(kind, pass) ==
                                                    ELSE {O(TRUE, FALSE, FALSE)}
 
 Range(s) == {s[i] : i \in 1..Len(s)}
+NoPkt == [c |-> None, k |-> "hit"]
 KindOf(p) == pinfo[p].k
 ClientOf(p) == pinfo[p].c
 
@@ -89,7 +92,7 @@ Init ==
   /\ alloc = {} /\ idle = <<>> /\ ready = <<>>
   /\ leased = 0 /\ inFlight = 0
   /\ inbox = <<>> /\ nsent = 0
-  /\ pinfo = [p \in Pkts |-> [c |-> None, k |-> "hit"]]
+  /\ pinfo = [p \in Pkts |-> NoPkt]
   /\ rpc = [r \in Readers |-> "top"]
   /\ rheld = [r \in Readers |-> <<>>]
   /\ rpend = [r \in Readers |-> <<>>]
@@ -136,11 +139,15 @@ ArmOrAssert(j) ==
     ELSE slab' = slab /\ err' = "ownership: arm of a slab that is not free"
 
 (* release(from): the ownership assertion, the scrub, park, count down *)
-ReleaseTo(j, from, sl) ==
+Forget(ps) == [p \in Pkts |-> IF p \in ps THEN NoPkt ELSE pinfo[p]]
+
+ReleaseTo(j, from, sl, more) ==
   IF sl[j].state # from
     THEN /\ err' = "ownership: release from a state the job is not in"
          /\ slab' = sl /\ idle' = idle /\ leased' = leased /\ inFlight' = inFlight
+         /\ pinfo' = Forget(more)
     ELSE /\ err' = err
+         /\ pinfo' = Forget({sl[j].rx} \cup more)
          /\ slab' = [sl EXCEPT ![j] = OpRelease(@)]
          /\ idle' = Append(idle, j)
          /\ leased' = leased - 1
@@ -179,8 +186,9 @@ PTakeCheck(r) ==
 PShed(r) ==
   /\ err = "" /\ r \in PReaders /\ rpc[r] = "shed" /\ inbox # <<>>
   /\ inbox' = Tail(inbox)
+  /\ pinfo' = Forget({Head(inbox)})
   /\ rpc' = [rpc EXCEPT ![r] = "top"]
-  /\ UNCHANGED <<slab, alloc, idle, ready, leased, inFlight, nsent, pinfo, rheld, rpend,
+  /\ UNCHANGED <<slab, alloc, idle, ready, leased, inFlight, nsent, rheld, rpend,
                  hpc, cur, burst, fl, out, ov, oout, wire, err>>
 
 PReadInto(r) ==
@@ -195,10 +203,10 @@ PReadInto(r) ==
 PReadDrop(r) ==      \* read error / MSG_TRUNC / control truncation: release(reading)
   /\ err = "" /\ Drops /\ r \in PReaders /\ rpc[r] = "armed" /\ inbox # <<>>
   /\ inbox' = Tail(inbox)
-  /\ ReleaseTo(rheld[r][1], "reading", slab)
+  /\ ReleaseTo(rheld[r][1], "reading", slab, {Head(inbox)})
   /\ rheld' = [rheld EXCEPT ![r] = <<>>]
   /\ rpc' = [rpc EXCEPT ![r] = "top"]
-  /\ UNCHANGED <<alloc, ready, nsent, pinfo, rpend, hpc, cur, burst, fl, out, ov, oout, wire>>
+  /\ UNCHANGED <<alloc, ready, nsent, rpend, hpc, cur, burst, fl, out, ov, oout, wire>>
 
 PEnqueue(r) ==
   /\ err = "" /\ r \in PReaders /\ rpc[r] = "filled"
@@ -241,9 +249,11 @@ BArmed(r) ==
 
 BShed(r) ==
   /\ err = "" /\ r \in BReaders /\ rpc[r] = "shed" /\ inbox # <<>>
-  /\ \E n \in 1..Len(inbox) : inbox' = SubSeq(inbox, n + 1, Len(inbox))
+  /\ \E n \in 1..Len(inbox) :
+       /\ inbox' = SubSeq(inbox, n + 1, Len(inbox))
+       /\ pinfo' = Forget({inbox[i] : i \in 1..n})
   /\ rpc' = [rpc EXCEPT ![r] = "top"]
-  /\ UNCHANGED <<slab, alloc, idle, ready, leased, inFlight, nsent, pinfo, rheld, rpend,
+  /\ UNCHANGED <<slab, alloc, idle, ready, leased, inFlight, nsent, rheld, rpend,
                  hpc, cur, burst, fl, out, ov, oout, wire, err>>
 
 Min(a, b) == IF a < b THEN a ELSE b
@@ -309,18 +319,18 @@ InlineEnd(r) ==
             /\ burst' = [burst EXCEPT ![r] = Append(@, j)]
             /\ cur' = [cur EXCEPT ![r] = 0]
             /\ rpc' = [rpc EXCEPT ![r] = "fin"]
-            /\ UNCHANGED <<idle, leased, inFlight, err>>
+            /\ UNCHANGED <<idle, leased, inFlight, err, pinfo>>
        ELSE IF ~done
          THEN \* handoff: replay = true, transition(serving, reading); count carried
             /\ slab' = [slab EXCEPT ![j] = OpHandoff(s)]
             /\ burst' = IF s.txLen > 0 THEN [burst EXCEPT ![r] = Append(@, j)] ELSE burst
             /\ rpc' = [rpc EXCEPT ![r] = "hand"]
-            /\ UNCHANGED <<cur, idle, leased, inFlight, err>>
-         ELSE /\ ReleaseTo(j, "serving", [slab EXCEPT ![j] = s])
+            /\ UNCHANGED <<cur, idle, leased, inFlight, err, pinfo>>
+         ELSE /\ ReleaseTo(j, "serving", [slab EXCEPT ![j] = s], {})
               /\ cur' = [cur EXCEPT ![r] = 0]
               /\ rpc' = [rpc EXCEPT ![r] = "fin"]
               /\ burst' = burst
-  /\ UNCHANGED <<alloc, ready, inbox, nsent, pinfo, rheld, rpend, hpc, fl, out, ov, oout, wire>>
+  /\ UNCHANGED <<alloc, ready, inbox, nsent, rheld, rpend, hpc, fl, out, ov, oout, wire>>
 
 InlineHandoff(r) ==       \* finishRecv: enqueueCounted(j) after a declined inline pass
   /\ err = "" /\ r \in BReaders /\ rpc[r] = "hand"
@@ -360,12 +370,12 @@ ServeEnd(w) ==          \* serve's deferred tail: burst.add or release, exactly 
      IF s.txLen > 0
        THEN /\ slab' = [slab EXCEPT ![j] = s]
             /\ burst' = [burst EXCEPT ![w] = Append(@, j)]
-            /\ UNCHANGED <<idle, leased, inFlight, err>>
-       ELSE /\ ReleaseTo(j, "serving", [slab EXCEPT ![j] = s])
+            /\ UNCHANGED <<idle, leased, inFlight, err, pinfo>>
+       ELSE /\ ReleaseTo(j, "serving", [slab EXCEPT ![j] = s], {})
             /\ burst' = burst
   /\ cur' = [cur EXCEPT ![w] = 0]
   /\ hpc' = [hpc EXCEPT ![w] = "poll"]
-  /\ UNCHANGED <<alloc, ready, inbox, nsent, pinfo, rpc, rheld, rpend, fl, out, ov, oout, wire>>
+  /\ UNCHANGED <<alloc, ready, inbox, nsent, rpc, rheld, rpend, fl, out, ov, oout, wire>>
 
 WFlushStart(w) ==       \* burst full after a serve, or the worker would block
   /\ err = "" /\ w \in Workers /\ hpc[w] = "poll" /\ fl[w] = "no" /\ burst[w] # <<>>
@@ -384,13 +394,27 @@ WMidFlush(w) ==         \* udpJob.FlushStaged from the decoded fallback, before 
 ---------------------------------------------------------------------------
 (* flushTX: every staged reply of the burst is sent, then every job released *)
 Datagram(j, s, how) ==
-  [to |-> SendDest(s, BatchTX /\ how = "burst"), tx |-> s.tx, rx |-> s.rx,
-   wrote |-> s.wrote, slab |-> j]
+  [to |-> IF how = "now" THEN s.raddr ELSE SendDest(s, BatchTX),
+   tx |-> IF how = "now" THEN s.rx ELSE s.tx,
+   rx |-> s.rx,
+   from |-> IF s.rx = None THEN None ELSE ClientOf(s.rx),
+   kind |-> IF s.rx = None THEN "none" ELSE KindOf(s.rx),
+   wrote |-> (how = "now") \/ s.wrote,
+   nth |-> s.sends + 1, slab |-> j]
+
+Own(d)    == d.rx # None /\ d.tx = d.rx /\ d.to = d.from
+Earned(d) == d.wrote /\ d.kind \notin SilentKinds
+Once(d)   == d.nth = 1
+Sound(d)  == Own(d) /\ Earned(d) /\ Once(d)
+(* the ghost keeps the datagrams that broke a predicate, so the predicates  *)
+(* below are state invariants without a growing history: each holds at     *)
+(* every send of every behaviour iff it holds of `wire` in every state     *)
+Record(ds) == wire \o SelectSeq(ds, LAMBDA d : ~Sound(d))
 
 FlushSend(h) ==
   /\ err = "" /\ h \in Holders /\ fl[h] = "send"
   /\ LET staged == SelectSeq(burst[h], LAMBDA j : slab[j].txLen > 0) IN
-     /\ wire' = wire \o [i \in 1..Len(staged) |-> Datagram(staged[i], slab[staged[i]], "burst")]
+     /\ wire' = Record([i \in 1..Len(staged) |-> Datagram(staged[i], slab[staged[i]], "burst")])
      /\ slab' = [j \in Slabs |-> IF j \in Range(staged) THEN OpSent(slab[j]) ELSE slab[j]]
   /\ fl' = [fl EXCEPT ![h] = "rel"]
   /\ UNCHANGED <<alloc, idle, ready, leased, inFlight, inbox, nsent, pinfo, rpc, rheld, rpend,
@@ -402,11 +426,11 @@ FlushRel(h) ==
        THEN /\ fl' = [fl EXCEPT ![h] = "no"]
             /\ rpc' = IF h \in BReaders /\ rpc[h] = "fin" /\ rpend[h] = <<>>
                         THEN [rpc EXCEPT ![h] = "top"] ELSE rpc
-            /\ UNCHANGED <<slab, idle, leased, inFlight, burst, err>>
-       ELSE /\ ReleaseTo(Head(burst[h]), "serving", slab)
+            /\ UNCHANGED <<slab, idle, leased, inFlight, burst, err, pinfo>>
+       ELSE /\ ReleaseTo(Head(burst[h]), "serving", slab, {})
             /\ burst' = [burst EXCEPT ![h] = Tail(@)]
             /\ UNCHANGED <<fl, rpc>>
-  /\ UNCHANGED <<alloc, ready, inbox, nsent, pinfo, rheld, rpend, hpc, cur, out, ov, oout, wire>>
+  /\ UNCHANGED <<alloc, ready, inbox, nsent, rheld, rpend, hpc, cur, out, ov, oout, wire>>
 
 ---------------------------------------------------------------------------
 (* overflow goroutine: serve(j, nil) -- no burst, a Write leaves at once *)
@@ -425,8 +449,7 @@ OvChain(j) ==
   /\ \E o \in Allowed(KindOf(slab[j].rx), IF slab[j].replay THEN "replay" ELSE "worker") :
        /\ oout' = [oout EXCEPT ![j] = o]
        /\ IF o.wrote
-            THEN /\ wire' = Append(wire, [to |-> slab[j].raddr, tx |-> slab[j].rx,
-                                           rx |-> slab[j].rx, wrote |-> TRUE, slab |-> j])
+            THEN /\ wire' = Record(<<Datagram(j, slab[j], "now")>>)
                  /\ slab' = [slab EXCEPT ![j] = OpWriteNow(@)]
             ELSE UNCHANGED <<wire, slab>>
   /\ UNCHANGED <<alloc, idle, ready, leased, inFlight, inbox, nsent, pinfo, rpc, rheld, rpend,
@@ -438,10 +461,10 @@ OvEnd(j) ==
      IF s.txLen > 0
        THEN \* burst.add on the nil burst of an overflow serve
             /\ err' = "nil burst: a staged length on a job served without a burst"
-            /\ UNCHANGED <<slab, idle, leased, inFlight>>
-       ELSE ReleaseTo(j, "serving", [slab EXCEPT ![j] = s])
+            /\ UNCHANGED <<slab, idle, leased, inFlight, pinfo>>
+       ELSE ReleaseTo(j, "serving", [slab EXCEPT ![j] = s], {})
   /\ ov' = [ov EXCEPT ![j] = "no"]
-  /\ UNCHANGED <<alloc, ready, inbox, nsent, pinfo, rpc, rheld, rpend, hpc, cur, burst, fl, out,
+  /\ UNCHANGED <<alloc, ready, inbox, nsent, rpc, rheld, rpend, hpc, cur, burst, fl, out,
                  oout, wire>>
 
 ---------------------------------------------------------------------------
@@ -487,25 +510,16 @@ SingleOwner ==
 ReleaseOnce == err = ""
 
 (* a Send(j) transmits bytes produced for j.rx, to the address j.rx came from *)
-ReplyIsOwn ==
-  \A i \in 1..Len(wire) :
-    /\ wire[i].rx # None
-    /\ wire[i].tx = wire[i].rx
-    /\ wire[i].to = ClientOf(wire[i].rx)
+ReplyIsOwn == \A i \in 1..Len(wire) : Own(wire[i])
 
 (* a request decided in silence causes no datagram *)
-SilentKinds == {"malformed", "qr", "ignoredByChain"}
-SilentStaysSilent ==
-  \A i \in 1..Len(wire) :
-    /\ wire[i].wrote
-    /\ wire[i].rx # None => KindOf(wire[i].rx) \notin SilentKinds
+SilentStaysSilent == \A i \in 1..Len(wire) : Earned(wire[i])
 
-(* a packet is answered at most once, inline-then-replay included, and no   *)
-(* reply's bytes are transmitted twice                                     *)
+(* a packet is answered at most once, inline-then-replay included; a reply  *)
+(* resent from a later lease of the slab has tx # rx and is ReplyIsOwn's   *)
 AtMostOneSend ==
-  \A p \in Pkts :
-    /\ Cardinality({i \in 1..Len(wire) : wire[i].rx = p}) <= 1
-    /\ Cardinality({i \in 1..Len(wire) : wire[i].tx = p}) <= 1
+  /\ \A i \in 1..Len(wire) : Once(wire[i])
+  /\ \A j \in Slabs : slab[j].sends <= 1
 
 Takers == Cardinality({r \in Readers : rpc[r] = "took"})
 Live == alloc \ Range(idle)
